@@ -16,12 +16,15 @@ type Corrupter interface {
 	Corrupt(c *Case, o *Outcome) (obs any, monitor string, ok bool)
 }
 
-func selfTest(f Family, dir string, cases []Case, outs []*Outcome, _ func(string, func(int, *traceLine) bool) int) bool {
+func selfTest(f Family, dir string, cases []Case, outs []*Outcome, failed map[string]bool) bool {
 	cr, ok := f.(Corrupter)
 	if !ok {
 		return false
 	}
 	for i := range cases {
+		if failed[cases[i].Key] {
+			continue // corrupt only observations that were judged fine
+		}
 		obs, mon, ok := cr.Corrupt(&cases[i], outs[i])
 		if !ok {
 			continue
